@@ -102,6 +102,15 @@ theorem c20_duplicate_keys_order_matters :
     checkKeyed false (fun (a b : Nat) => a == b) [("k", 1), ("k", 2)] [("k", 1)] = true ∧
     checkKeyed false (fun (a b : Nat) => a == b) [("k", 2), ("k", 1)] [("k", 1)] = false := by decide
 
+/-- **Known finding, kernel-checked witness** (`checker:eds-shared-reference`): embedded data specifications are matched by
+    their `data_specification` reference, which the metamodel does NOT make unique inside one list.  With two members under
+    one key, a collection does not even compare equal to ITSELF (the second expected member is compared with the first given
+    one), while a collection that differs passes - the full statement `c20_unordered_verdict` needs `keys … Nodup`, and for
+    this one attribute the code does not have it. -/
+theorem c20_shared_key_identical_fails_differing_passes :
+    checkKeyed true (fun (a b : Nat) => a == b) [("urn:d", 1), ("urn:d", 2)] [("urn:d", 1), ("urn:d", 2)] = false ∧
+    checkKeyed true (fun (a b : Nat) => a == b) [("urn:d", 1), ("urn:d", 2)] [("urn:d", 1), ("urn:d", 1)] = true := by decide
+
 /-! non-vacuity -/
 example : shaped Gen.Compliance.cover (.node "Resource" [.tok "p" false, .tok "image/png" false]) = true := by decide
 example : overall [.success, .failed, .success] = .failed := by decide
